@@ -1,5 +1,6 @@
 import TantivyModel.Proofs.Columnar.Mapping
 import TantivyModel.Proofs.Columnar.LinearColumn
+import TantivyModel.Proofs.Columnar.RangeU32
 import TantivyModel.Proofs.Columnar.CompactGaps
 import TantivyModel.Proofs.Columnar.StackMissing
 import TantivyModel.Proofs.Columnar.Writer
@@ -39,6 +40,34 @@ theorem C08_bitpacker_roundtrip_followed (w : Nat) (hw : unpackerWidthOk w = tru
     (hfull : 8 ∣ w * vals.length) (i : Nat) (hi : i < vals.length) :
     unpackGet w i (pack w vals ++ rest) = vals[i] :=
   unpackGet_append w hw vals h rest hrest hfull i hi
+
+/-- `BitUnpacker::get_ids_for_value_range`, u32 fast path: the guard on the range start and the
+conversion of the u64 query range to u32 are the *source expressions* (translated by rs2lean into
+`Gen.range_lookup_*` on every run). Clamp-then-narrow is exact: for every stored value `x < 2^32`,
+either the start is beyond `u32::MAX` and nothing can match, or `lo ≤ x ≤ hi` holds exactly when
+`x` lies in the converted u32 range. (Narrowing before clamping is not: see the example.) -/
+theorem C08_range_u32_conversion_exact (lo hi x : Nat) (hlo : lo < 2 ^ 64) (hhi : hi < 2 ^ 64) (hx : x < 2 ^ 32) :
+    (Gen.range_lookup_start_too_big (BitVec.ofNat 64 lo) (BitVec.ofNat 64 hi) = true → ¬ lo ≤ x) ∧
+    (Gen.range_lookup_start_too_big (BitVec.ofNat 64 lo) (BitVec.ofNat 64 hi) = false →
+      ((lo ≤ x ∧ x ≤ hi) ↔
+        ((Gen.range_lookup_start_u32 (BitVec.ofNat 64 lo) (BitVec.ofNat 64 hi)).toNat ≤ x ∧
+          x ≤ (Gen.range_lookup_end_u32 (BitVec.ofNat 64 lo) (BitVec.ofNat 64 hi)).toNat))) :=
+  range_u32_exact lo hi x hlo hhi hx
+
+/-- the whole `get_ids_for_value_range` (slow u64 path for widths above 32, converted u32 path
+otherwise) on a packed stream, possibly followed by other bytes: exactly the positions of `s..e`
+whose value lies in `lo..=hi`, for every accepted width, every value list and every query range -/
+theorem C08_bitunpacker_range_lookup (w : Nat) (hw : unpackerWidthOk w = true) (vals : List Nat)
+    (h : ∀ v ∈ vals, v < 2 ^ w) (rest : Bytes) (hrest : ∀ b ∈ rest, b < 256)
+    (lo hi s e : Nat) (hlo : lo < 2 ^ 64) (hhi : hi < 2 ^ 64) (he : e ≤ vals.length) :
+    unpackRangeIds w (pack w vals ++ rest) lo hi s e
+      = (List.range' s (e - s)).filter (fun i => decide (lo ≤ vals.getD i 0) && decide (vals.getD i 0 ≤ hi)) :=
+  unpackRangeIds_spec w hw vals h rest hrest lo hi s e hlo hhi he
+
+example : unpackRangeIds 3 (pack 3 [1, 2, 3, 4, 5, 0]) 2 4 1 6 = [1, 2, 3] := by decide
+-- a range end above u32::MAX is clamped to u32::MAX (truncating it first would give 5)
+example : (Gen.range_lookup_end_u32 0#64 (BitVec.ofNat 64 (2 ^ 32 + 5))).toNat = 4294967295
+    ∧ unpackRangeIds 4 (pack 4 [9, 3]) 0 (2 ^ 32 + 5) 0 2 = [0, 1] := by decide
 
 /-- `compute_num_bits` always yields a width the unpacker accepts and that holds the amplitude -/
 theorem C08_num_bits_sufficient (n : Nat) (hn : n < 2 ^ 64) :
